@@ -14,7 +14,7 @@ theorem invR_step_5 {w s l s'} (h0 : Inv0 s) (ha : InvA w s) (hi : InvR s) (hs :
       invR_auto
   | oReady t x h =>
       have htwo := fun t' => h0.two' t' t
-      by_cases hc : x ≠ .list [] ∧ (s.obs t).todo.head? = some .readyTouch
+      by_cases hc : x = .result ∧ (s.obs t).todo.head? = some .readyTouch
       · simp only [doReady, readyNext_pos hc]; invR_auto
       · simp only [doReady, readyNext_neg hc]; invR_auto
   | oTouch t h =>
